@@ -226,7 +226,7 @@ func (p *Parser) optimise(statements []*Statement) []*Statement {
 	WalkAST(ret, func(expr *Expression) bool {
 		if expr.Val != nil && expr.Val.String != "" && len(expr.Val.Slices) == 0 && expr.Val.Property != nil && expr.Val.Property.Name == "join" && len(expr.Val.Property.Action) == 1 && expr.If == nil && len(expr.Op) == 0 {
 			if call := expr.Val.Property.Action[0].Call; call != nil && len(call.Arguments) == 1 {
-				if arg := call.Arguments[0]; arg.Name == "" && arg.Value.Val != nil && arg.Value.Val.List != nil && len(arg.Value.Op) == 0 && arg.Value.If == nil {
+				if arg := call.Arguments[0]; arg.Name == "" && arg.Value.Val != nil && arg.Value.Val.List != nil && len(arg.Value.Val.Slices) == 0 && arg.Value.Val.Property == nil && arg.Value.Val.Call == nil && len(arg.Value.Op) == 0 && arg.Value.If == nil {
 					expr.optimised = &optimisedExpression{Join: &optimisedJoin{
 						Base: expr.Val.String,
 						List: arg.Value.Val.List,
